@@ -212,6 +212,19 @@ def run_tls(sc, trace=False):
         body = bytes(rr.getrandbits(8) for _ in range(rr.choice([24, 40, 333])))
         stale = tcp_frame(flows[0], "s", sq, ak, R.record(23, 0x0303, body))
         pkts = [(pkts[0][0] - 5000, stale)] + list(pkts)
+    if sc.get("zoo"):
+        # what a real capture contains besides the connections: other protocols / encapsulations, control segments, fragments, runts
+        # (wire/zoo.py) at seeded positions; each takes the timestamp of its predecessor + 1 us
+        from wire import zoo as _zoo
+        import random as _r
+        rz = _r.Random(sc["zoo"])
+        members = _zoo.frames(flows[0], rz)
+        if isinstance(sc.get("zoo_only"), list):
+            members = [m for m in members if m[0] in sc["zoo_only"]]
+        pkts = list(pkts)
+        for _name, fr in members:
+            k = rz.randrange(1, len(pkts) + 1)
+            pkts.insert(k, (pkts[k - 1][0] + 1, fr))
     if ct.get("sub"):      # sub-microsecond parts: timestamps become rationals (numerator, denominator) of seconds
         pkts = [((ts * 1000 + (i * 377) % 1000, 10 ** 9), fr) for i, (ts, fr) in enumerate(cap.pkts)]
     data = pcapng_bytes(pkts, le=ct.get("le", True), tsresol=ct.get("tsresol"), tsoffset=ct.get("tsoffset"),
